@@ -294,18 +294,64 @@ class JacBlock:
         return f"Jacblock with DeriExpr {self.DeriExpr.__repr__()}"
 
 
+class OnesLikeRows(Function):
+    """
+    np.ones(M.shape[0]) of a matrix-valued expression M: the all-one vector that sizes a Diag summand like its sibling M
+    """
+
+    def _numpycode(self, printer, **kwargs):
+        return r'np.ones((' + printer._print(self.args[0], **kwargs) + r').shape[0])'
+
+    def _lambdacode(self, printer, **kwargs):
+        return self._numpycode(printer, **kwargs)
+
+    def _pythoncode(self, printer, **kwargs):
+        return self._numpycode(printer, **kwargs)
+
+
+def _broadcast_diag_summands(add: Expr, n) -> Expr:
+    """
+    In a sum of matrices, collect the summands k*Diag(v) into one Diag(sum of k*v) (the vectors broadcast correctly among
+    themselves) and give it the size of the sum: n if known, otherwise the number of rows of the remaining summands.
+    """
+    terms = Add.make_args(add)
+    if len(terms) < 2:
+        return add
+    vectors = []
+    others = []
+    for term in terms:
+        k, rest = term.as_coeff_Mul()
+        if isinstance(rest, Diag):
+            vectors.append(k * rest.args[0])
+        else:
+            others.append(term)
+    if not vectors:
+        return add
+    v = Add(*vectors)
+    if n is not None:
+        return Add(Diag(v * Ones(n)), *others)
+    elif others:
+        return Add(Diag(v * OnesLikeRows(Add(*others))), *others)
+    else:
+        return Diag(v)
+
+
 def broadcast_diag_terms(expr: Expr, n: int) -> Expr:
     """
     c*x + A@x differentiates to Diag(c) + A. With a scalar parameter (or a size-one variable) c, np.diagflat(c) is 1 x 1
     and numpy adds c to every entry of A. A Diag(.) summand of a matrix block is the n x n block itself: print it so.
+    The same sum below a factor, b - (c*x + A@x), d*(c*x + A@x), B@(c*x + A@x), Abs(c*x + A@x), A@(c*x + x*y), is one
+    term -(Diag(c) + A), diag(d)@(Diag(c) + A), ... : there the Diag summand takes its size from its siblings.
     """
-    terms = Add.make_args(expr)
+    terms = [term.replace(lambda e: isinstance(e, Add), lambda e: _broadcast_diag_summands(e, None))
+             for term in Add.make_args(expr)]
     if len(terms) < 2:
-        return expr
+        return terms[0]
     new_terms = []
-    for term in terms:
-        if term.has(Diag) and not term.has(Mat_Mul):
-            term = term.replace(lambda e: isinstance(e, Diag), lambda e: Diag(e.args[0] * Ones(n)))
+    for term in Add.make_args(_broadcast_diag_summands(Add(*terms), n)):
+        if term.has(Diag) and not term.has(Mat_Mul) and not isinstance(term, Diag):
+            term = term.replace(lambda e: isinstance(e, Diag),
+                                lambda e: e if e.args[0].has(Ones) else Diag(e.args[0] * Ones(n)))
         new_terms.append(term)
     return Add(*new_terms)
 
